@@ -263,6 +263,14 @@ def gen_function(rnd):
     if meth:
         args.insert(0, rnd.choice(["self", "cls"]))
     doc_names = rnd.sample(pos + kwo, rnd.randint(0, len(pos + kwo)))
+    # a docstring also documents what is not a plain argument: the variadic catch-alls (under the spellings in use) and, now and then, a
+    # name the signature no longer has -- the documented names are then NOT a subset of the signature's
+    if var and rnd.random() < 0.5:
+        doc_names.insert(rnd.randint(0, len(doc_names)), rnd.choice(["args", "*args"]))
+    if kw and rnd.random() < 0.5:
+        doc_names.append(rnd.choice(["kwargs", "**kwargs"]))
+    if rnd.random() < 0.2:
+        doc_names.insert(rnd.randint(0, len(doc_names)), "removed_option")
     style = rnd.choice(["rest", "google", "numpydoc", "none"])
     if style == "none":
         doc = ""
